@@ -18,7 +18,14 @@ def run_one(sid, props, tier):
     out = []
     try:
         subprocess.run(['git', '-C', '/repo', 'worktree', 'add', '--detach', wt, 'HEAD'], capture_output=True, check=True)
-        subprocess.run(['git', '-C', wt, 'apply', os.path.join(d, 'patch.diff')], capture_output=True, check=True)
+        # the patches were written against an earlier HEAD; later fix: commits may shift or touch their context
+        r = subprocess.run(['git', '-C', wt, 'apply', os.path.join(d, 'patch.diff')], capture_output=True)
+        if r.returncode != 0:
+            r = subprocess.run(['git', '-C', wt, 'apply', '--3way', os.path.join(d, 'patch.diff')], capture_output=True)
+        if r.returncode != 0:
+            r = subprocess.run(['patch', '-p1', '--fuzz=3', '-d', wt, '-i', os.path.join(d, 'patch.diff')], capture_output=True)
+        if r.returncode != 0:
+            return [(sid, p, 'patch-does-not-apply', []) for p in props]
         for p in props:
             o = tempfile.mkdtemp(prefix=f'seedout_{sid}_{p}_', dir='/tmp')
             env = dict(os.environ, PYVC_REPO=wt, PYVC_OUT=o, PYVC_JOBS=os.environ.get('SEED_JOBS', '4'))
